@@ -100,7 +100,7 @@ func (p *IdentityProvider) attributeQueryHandleFunc(w http.ResponseWriter, r *ht
 		signaturePostProvided(
 			func() *xml_dsig.SignatureType { return attrQuery.Signature },
 		),
-		verifyPostSignature(
+		verifyAttributeQuerySignature(
 			func() string { return attrQueryRequest },
 			func() *serviceprovider.ServiceProvider { return sp },
 			func(errF error) { err = errF },
